@@ -379,7 +379,14 @@ func (e *Exec) applyContract(st *State, fr *Frame, site ssa.Instruction, c *Cont
 				}
 			}
 		}
+		// a clause tagged with properties puts its obligation under those properties too
+		// (the caller is then verified in their checks as well, see functionsFor)
+		saveTags := e.curTags
+		if len(r.Tags) > 0 {
+			e.curTags = append(append([]string{}, saveTags...), r.Tags...)
+		}
 		e.check(st, fr, "PRE", site, cname+" requires "+r.Text+" | "+e.P.srcLine(site.Pos()), ctx.evalBool(r.Expr))
+		e.curTags = saveTags
 	}
 	old := st.snapshot()
 	// havoc
